@@ -162,6 +162,55 @@ var c11Injectors = []c11Injector{
 		addBody(modA(ms), yang.S("typedef", "cyt1", yang.S("type", "union", yang.S("type", "int8"), yang.S("type", "cyt1"))), yang.S("leaf", "cyl", yang.S("type", "cyt1")))
 		return true
 	}},
+	// the same cycles declared in a local scope: typedefs may stand in a container, list, grouping, rpc,
+	// input / output, notification, and those may in turn be written inside a choice / case or an augment
+	{"typedef-cycle-in-a-local-scope", true, func(r *core.Rng, ms *yang.ModSet) bool {
+		m := modA(ms)
+		var cyc []*yang.Stmt
+		switch r.Intn(3) {
+		case 0:
+			cyc = []*yang.Stmt{yang.S("typedef", "cyt", yang.S("type", "cyt"))}
+		case 1:
+			cyc = []*yang.Stmt{yang.S("typedef", "cyt", yang.S("type", "cyt2")), yang.S("typedef", "cyt2", yang.S("type", "cyt"))}
+		default:
+			cyc = []*yang.Stmt{yang.S("typedef", "cyt", yang.S("type", "union", yang.S("type", "int8"), yang.S("type", "cyt")))}
+		}
+		if r.Bool() {
+			cyc = append(cyc, yang.S("leaf", "cyl", yang.S("type", "cyt")))
+		} else {
+			cyc = append(cyc, yang.S("leaf", "cyl", yang.S("type", "string")))
+		}
+		box := func(kw, name string) *yang.Stmt { return yang.S(kw, name, cyc...) }
+		keyed := func() *yang.Stmt {
+			l := yang.S("list", "cy-list", yang.S("key", "cyk"), yang.S("leaf", "cyk", yang.S("type", "string")))
+			l.Add(cyc...)
+			return l
+		}
+		switch r.Intn(10) {
+		case 0:
+			addBody(m, box("container", "cy-box"))
+		case 1:
+			addBody(m, keyed())
+		case 2:
+			addBody(m, box("grouping", "cy-grp"))
+		case 3:
+			addBody(m, yang.S("rpc", "cy-rpc", yang.S0("input", cyc...)))
+		case 4:
+			addBody(m, yang.S("rpc", "cy-rpc", yang.S0("output", cyc...)))
+		case 5:
+			addBody(m, box("notification", "cy-note"))
+		case 6:
+			addBody(m, yang.S("container", "cy-outer", yang.S("choice", "cy-ch", yang.S("case", "cy-case", box("container", "cy-box")))))
+		case 7:
+			addBody(m, yang.S("container", "cy-target"), yang.S("augment", "/"+pfx(m)+":cy-target", box("container", "cy-box")))
+		case 8:
+			addBody(m, yang.S("grouping", "cy-g", yang.S("container", "cy-gc")),
+				yang.S("container", "cy-use", yang.S("uses", "cy-g", yang.S("augment", "cy-gc", keyed()))))
+		default:
+			addBody(m, yang.S("container", "cy-outer", yang.S("container", "cy-mid", box("container", "cy-box"))))
+		}
+		return true
+	}},
 	{"identity-self", true, func(r *core.Rng, ms *yang.ModSet) bool {
 		addBody(modA(ms), yang.S("identity", "cyi", yang.S("base", "cyi")))
 		return true
